@@ -518,6 +518,11 @@ Definition oracle_model_locale (op : bytes) (args : list bytes) : option bytes :
             end
           | _ => bs "BADARG" end)
   else if beqb op (bs "big") then Some (bs "DONE")
+  else if beqb op (bs "facade") then
+    let dbg (r : res bytes) := match r with Ok t => bs "Ok(" ++ [34] ++ t ++ [34] ++ bs ")" | _ => bs "Err(())" end in
+    Some (dbg (bind (locale_from_bytes a) (fun l => Ok (loc_to_string l))) ++ sp
+          ++ dbg (bind (langid_from_bytes a) (fun l => Ok (li_to_string l))) ++ sp
+          ++ dbg (loc_canonicalize a) ++ sp ++ dbg (li_canonicalize a))
   else if beqb op (bs "loc_meta") then
     Some (match locale_from_bytes (arg_n 0 args), locale_from_bytes (arg_n 1 args) with
           | Ok x, Ok y => if loc_eqb x y && beqb (loc_to_string x) (loc_to_string y) then bs "SAME" else bs "DIFF"
@@ -605,13 +610,80 @@ Definition oracle_spec_locale (op : bytes) (args : list bytes) (impl : bytes) : 
           | _, _ => true end)
   else None.
 
+(* ================================================================== serde *)
+From UL Require Import Serde.
+Definition quote_b : bytes := [34].
+Definition oracle_model_serde (op : bytes) (args : list bytes) : option bytes :=
+  let a := arg1 args in
+  if beqb op (bs "serde_ser") then
+    Some (match langid_from_bytes a with
+          | Ok x => match ser x with JStr t => bs "OK " ++ quote_b ++ t ++ quote_b | _ => bs "NOT-A-STRING" end
+          | _ => bs "BADARG" end)
+  else if beqb op (bs "serde_de") then Some (fmt_res_e fmt_langid (de (JStr a)))
+  else if beqb op (bs "serde_roundtrip") then
+    Some (match langid_from_bytes a with
+          | Ok x => match de (ser x) with Ok y => if li_eqb x y then bs "OK same" else bs "DIFF" | _ => bs "DE-ERR" end
+          | _ => bs "BADARG" end)
+  else if beqb op (bs "serde_nonstring") then Some (bs "ERR")
+  else None.
+Definition oracle_spec_serde (op : bytes) (args : list bytes) (impl : bytes) : option bool :=
+  let a := arg1 args in
+  if beqb op (bs "serde_ser") then
+    Some (match spec_langid (split a) with
+          | Some v => beqb impl (bs "OK " ++ quote_b ++ li_to_string v ++ quote_b) && canon_langid_text (li_to_string v)
+          | None => true end)
+  else if beqb op (bs "serde_de") then
+    Some (match spec_langid (split a) with
+          | Some v => beqb impl (bs "OK " ++ fmt_langid v)
+          | None => beqb impl (bs "ERR") end)
+  else if beqb op (bs "serde_roundtrip") then Some (beqb impl (bs "OK same") || beqb impl (bs "BADARG"))
+  else if beqb op (bs "serde_nonstring") then Some (beqb impl (bs "ERR"))
+  else None.
+
+(* ================================================================== macros *)
+From UL Require Import Macros.
+Definition fmt_mval {A} (f : A -> bytes) (m : mval A) : bytes :=
+  match m with MValue a => bs "OK " ++ f a | MCompileError => bs "COMPILE-ERROR" | MRuntimePanic => bs "RUNTIME-PANIC" end.
+Definition oracle_model_macros (op : bytes) (args : list bytes) : option bytes :=
+  let a := arg1 args in
+  if beqb op (bs "macro_lang") then Some (fmt_mval fmt_lang (macro_lang a))
+  else if beqb op (bs "macro_script") then Some (fmt_mval (fun x => x) (macro_script a))
+  else if beqb op (bs "macro_region") then Some (fmt_mval (fun x => x) (macro_region a))
+  else if beqb op (bs "macro_variant") then Some (fmt_mval (fun x => x) (macro_variant a))
+  else if beqb op (bs "macro_langid") then Some (fmt_mval fmt_langid (macro_langid a))
+  else if beqb op (bs "macro_locale") then Some (fmt_mval fmt_locale (macro_locale a))
+  else None.
+(* spec: a well-formed literal must compile and equal the value the grammar assigns; an ill-formed one
+   must be a compile-time error; the lenient zone of C03 may go either way *)
+Definition oracle_spec_macros (op : bytes) (args : list bytes) (impl : bytes) : option bool :=
+  let a := arg1 args in
+  let tokres (tok : bytes -> bool) (value : bytes -> bytes) :=
+      if tok a then beqb impl (bs "OK " ++ value a) else beqb impl (bs "COMPILE-ERROR") in
+  if beqb op (bs "macro_lang") then Some (tokres lang_tok (fun s => fmt_lang (spec_language_value s)))
+  else if beqb op (bs "macro_script") then Some (tokres script_tok title)
+  else if beqb op (bs "macro_region") then Some (tokres region_tok norm_region)
+  else if beqb op (bs "macro_variant") then Some (tokres variant_tok lower)
+  else if beqb op (bs "macro_langid") then
+    Some (match spec_langid (split a) with
+          | Some v => beqb impl (bs "OK " ++ fmt_langid v)
+          | None => beqb impl (bs "COMPILE-ERROR") end)
+  else if beqb op (bs "macro_locale") then
+    Some (match spec_locale_zone (split a) with
+          | MustAccept v => beqb impl (bs "OK " ++ fmt_locale v)
+          | Either v => beqb impl (bs "COMPILE-ERROR") || beqb impl (bs "OK " ++ fmt_locale v)
+          | MustReject => beqb impl (bs "COMPILE-ERROR")
+          | Outside => negb (beqb impl (bs "RUNTIME-PANIC")) end)
+  else None.
+
 (* ------------------------------------------------------------------ top level *)
 Definition oracle_model (op : bytes) (args : list bytes) : bytes :=
   match oracle_model_subtags op args with Some r => r | None =>
   match oracle_model_likely op args with Some r => r | None =>
   match oracle_model_langid op args with Some r => r | None =>
   match oracle_model_locale op args with Some r => r | None =>
-  bs "UNKNOWN-OP" end end end end.
+  match oracle_model_serde op args with Some r => r | None =>
+  match oracle_model_macros op args with Some r => r | None =>
+  bs "UNKNOWN-OP" end end end end end end.
 
 (* None = no specification attached to this operation (only the model is compared) *)
 Definition oracle_spec (op : bytes) (args : list bytes) (impl : bytes) : option bool :=
@@ -619,4 +691,6 @@ Definition oracle_spec (op : bytes) (args : list bytes) (impl : bytes) : option 
   match oracle_spec_likely op args impl with Some r => Some r | None =>
   match oracle_spec_langid op args impl with Some r => Some r | None =>
   match oracle_spec_locale op args impl with Some r => Some r | None =>
-  None end end end end.
+  match oracle_spec_serde op args impl with Some r => Some r | None =>
+  match oracle_spec_macros op args impl with Some r => Some r | None =>
+  None end end end end end end.
